@@ -158,12 +158,155 @@ fn agrees_pe(eff: &PeEff, text: &str) -> bool {
     }
 }
 
+/// The instruction analysers against LLVM's decoding: one- to three-instruction texts whose
+/// immediates sweep the whole field (imm7, imm12 with and without shift; every x86-64 push/pop
+/// register), the rule the analyser derives vs. the rule implied by what LLVM says the
+/// instructions are. Independent of this harness's encoders and of the Lean model.
+fn decoder_probes(rep: &mut Report, mc: &str) {
+    use crate::rules::{show_rule_a, show_rule_x};
+    use framehop::verif_hooks as hooks;
+    let w = |x: u32| x.to_le_bytes().to_vec();
+    let imm_of = |t: &str| -> Option<i64> { t.rsplit('#').next().and_then(|x| num(x.trim_end_matches([']', '!']))) };
+    // ---------------------------------------------------------------- aarch64
+    let mov_fp_sp = 0x910003fdu32;
+    let ret = 0xd65f03c0u32;
+    // (words, pc, what LLVM must say for word 0 / 1, expectation builder)
+    struct Probe {
+        words: Vec<u32>,
+        pc: usize,
+        kind: &'static str,
+    }
+    let mut probes: Vec<Probe> = Vec::new();
+    for imm7 in 0..128u32 {
+        // stp x29, x30, [sp, #imm]! ; mov x29, sp        (pc at the mov)
+        probes.push(Probe { words: vec![0xa9800000 | (imm7 << 15) | (30 << 10) | (31 << 5) | 29, mov_fp_sp], pc: 4, kind: "stp-pre" });
+        // ldp x29, x30, [sp], #imm ; ret                  (pc at the ldp)
+        probes.push(Probe { words: vec![0xa8c00000 | (imm7 << 15) | (30 << 10) | (31 << 5) | 29, ret], pc: 0, kind: "ldp-post" });
+        // ldp x29, x30, [sp, #imm] ; add sp, sp, #0x200 ; ret   (pc at the ldp)
+        probes.push(Probe { words: vec![0xa9400000 | (imm7 << 15) | (30 << 10) | (31 << 5) | 29, 0x910803ff, ret], pc: 0, kind: "ldp-off" });
+    }
+    for imm12 in (0..4096u32).step_by(7).chain([0xfff, 0x10, 0x800]) {
+        for sh in [0u32, 1] {
+            // sub sp, sp, #imm ; stp x29, x30, [sp, #16]   (pc at the stp)
+            probes.push(Probe { words: vec![0xd10003ff | (sh << 22) | (imm12 << 10), 0xa9017bfd], pc: 4, kind: "sub-sp" });
+            // add sp, sp, #imm ; ret                        (pc at the add)
+            probes.push(Probe { words: vec![0x910003ff | (sh << 22) | (imm12 << 10), ret], pc: 0, kind: "add-sp" });
+        }
+    }
+    let first_words: Vec<Vec<u8>> = probes.iter().map(|p| w(p.words[0])).collect();
+    let texts = disassemble(mc, Arch::A64, &first_words);
+    for (pr, text) in probes.iter().zip(texts.iter()) {
+        let Some(t) = text else { continue };
+        let Some(imm) = imm_of(t).or(if t.ends_with("[sp]") { Some(0) } else { None }) else { continue };
+        let imm = if t.contains("lsl #12") {
+            // `sub sp, sp, #1, lsl #12`
+            t.split('#').nth(1).and_then(|x| num(x.trim_end_matches(", lsl "))).unwrap_or(0) << 12
+        } else {
+            imm
+        };
+        // what the instructions do, from LLVM's reading
+        let expect: Option<String> = match pr.kind {
+            "stp-pre" if t.starts_with("stp x29, x30, [sp, #-") && imm < 0 && imm % 16 == 0 => Some(format!("rule:2:{}", hex((-imm / 16) as u64))),
+            "ldp-post" if t.starts_with("ldp x29, x30, [sp], #") && imm > 0 && imm % 16 == 0 => Some(format!("rule:5:{}:0:1", hex((imm / 16) as u64))),
+            "ldp-off" if t.starts_with("ldp x29, x30, [sp") && imm >= 0 && imm + 16 <= 0x200 => Some(format!("rule:5:20:{}:{}", hex_i(imm / 8), hex_i(imm / 8 + 1))),
+            "sub-sp" if t.starts_with("sub sp, sp, #") && imm > 0 && imm % 16 == 0 && imm / 16 < 65536 => Some(format!("rule:2:{}", hex((imm / 16) as u64))),
+            "add-sp" if t.starts_with("add sp, sp, #") && imm > 0 && imm % 16 == 0 && imm / 16 < 65536 => Some(format!("rule:2:{}", hex((imm / 16) as u64))),
+            _ => None,
+        };
+        let Some(expect) = expect else { continue };
+        let bytes: Vec<u8> = pr.words.iter().flat_map(|x| x.to_le_bytes()).collect();
+        let got = match catch(|| hooks::analyze_aarch64(&bytes, pr.pc)) {
+            Ok(Some(r)) => format!("rule:{}", show_rule_a(&r)),
+            Ok(None) => "none".into(),
+            Err(_) => "panic".into(),
+        };
+        rep.cases += 1;
+        rep.count(&format!("a64 analyser vs LLVM decoding: {}", pr.kind));
+        if got != expect {
+            rep.add_finding(Finding {
+                props: vec!["C02".into()],
+                kind: "oracle".into(),
+                key: format!("a64-analysis-disagrees-with-llvm-decoding-{}", pr.kind),
+                what: format!("LLVM reads the first instruction as `{t}`, which implies the rule {expect}"),
+                case: format!("arch=a64 pc={} text={}", pr.pc, bytes.iter().map(|b| format!("{b:02x}")).collect::<String>()),
+                impl_out: got,
+                model_out: expect,
+            });
+        }
+    }
+    // ---------------------------------------------------------------- x86-64: every push / pop register
+    let mut items: Vec<(Vec<u8>, bool)> = Vec::new(); // (bytes, is_push)
+    for r in 0..8u8 {
+        items.push((vec![0x50 + r], true));
+        items.push((vec![0x41, 0x50 + r], true));
+        items.push((vec![0x58 + r], false));
+        items.push((vec![0x41, 0x58 + r], false));
+    }
+    let texts = disassemble(mc, Arch::X64, &items.iter().map(|x| x.0.clone()).collect::<Vec<_>>());
+    for ((bytes, is_push), text) in items.iter().zip(texts.iter()) {
+        let Some(t) = text else { continue };
+        rep.cases += 1;
+        if *is_push {
+            if !t.starts_with("pushq %r") {
+                continue;
+            }
+            // push r ; sub rsp, 0x20 | (pc after the push): one word above the return address
+            let mut text_bytes = bytes.clone();
+            text_bytes.extend_from_slice(&[0x48, 0x83, 0xec, 0x20, 0x90]);
+            let got = match catch(|| hooks::analyze_x86_64(&text_bytes, bytes.len())) {
+                Ok(Some(r)) => format!("rule:{}", show_rule_x(&r)),
+                Ok(None) => "none".into(),
+                Err(_) => "panic".into(),
+            };
+            rep.count("x64 analyser vs LLVM decoding: push");
+            if got != "rule:3:2" {
+                rep.add_finding(Finding {
+                    props: vec!["C02".into()],
+                    kind: "oracle".into(),
+                    key: "x64-analysis-disagrees-with-llvm-decoding-push".into(),
+                    what: format!("LLVM reads the first instruction as `{t}`: after it the return address is one word above rsp (OffsetSp 2)"),
+                    case: format!("arch=x64 pc={} text={}", bytes.len(), text_bytes.iter().map(|b| format!("{b:02x}")).collect::<String>()),
+                    impl_out: got,
+                    model_out: "rule:3:2".into(),
+                });
+            }
+        } else {
+            if !t.starts_with("popq %r") {
+                continue;
+            }
+            // | pop r ; ret   (pc at the pop): rbp restored from [rsp] iff the register is rbp
+            let mut text_bytes = vec![0x90u8];
+            text_bytes.extend_from_slice(bytes);
+            text_bytes.push(0xc3);
+            let got = match catch(|| hooks::analyze_x86_64(&text_bytes, 1)) {
+                Ok(Some(r)) => format!("rule:{}", show_rule_x(&r)),
+                Ok(None) => "none".into(),
+                Err(_) => "panic".into(),
+            };
+            let expect = if t == "popq %rbp" { "rule:4:2:0" } else { "rule:3:2" };
+            rep.count("x64 analyser vs LLVM decoding: pop");
+            if got != expect {
+                rep.add_finding(Finding {
+                    props: vec!["C02".into()],
+                    kind: "oracle".into(),
+                    key: "x64-analysis-disagrees-with-llvm-decoding-pop".into(),
+                    what: format!("LLVM reads the instruction at pc as `{t}` followed by `retq`"),
+                    case: format!("arch=x64 pc=1 text={}", text_bytes.iter().map(|b| format!("{b:02x}")).collect::<String>()),
+                    impl_out: got,
+                    model_out: expect.into(),
+                });
+            }
+        }
+    }
+}
+
 pub fn run(tier: &str, seed: u64) -> Report {
     let mut rep = Report::new("asm");
     let Some(mc) = llvm_mc() else {
         rep.notes.push("llvm-mc not found: the generators' instruction encodings were not cross-checked".into());
         return rep;
     };
+    decoder_probes(&mut rep, mc);
     let mut p = Prng::new(seed.wrapping_mul(0x1f83_d9ab_fb41_bd6b).wrapping_add(31));
     let n = if tier == "thorough" { 60000 } else { 6000 };
     for arch in [Arch::X64, Arch::A64] {
